@@ -102,7 +102,12 @@ pub fn cancel_case_f(ctx: &mut Ctx, compressed: bool, verify: bool, frames: &[Ve
         if let (Some(a), Some(b)) = (&r, &base) {
             // a session cut short by an exhausted script delivers a prefix; compare what both delivered
             if a.items != b.items || a.out != b.out {
-                let sig = if a.dropped_in_write { "c19/cancel/keepalive-reply-in-flight" } else { "c19/cancel/other" };
+                // the recorded finding loses a *keep-alive* whose reply was in flight; anything else that goes missing is new
+                let mut rest: Vec<&String> = a.items.iter().collect();
+                let mut missing: Vec<&String> = vec![];
+                for t in &b.items { if let Some(i) = rest.iter().position(|x| *x == t) { let _ = rest.remove(i); } else { missing.push(t); } }
+                let only_keepalives = missing.iter().all(|t| t.as_str() == "pkt T.0.0" || t.starts_with("err"));
+                let sig = if a.dropped_in_write && only_keepalives { "c19/cancel/keepalive-reply-in-flight" } else { "c19/cancel/other" };
                 ctx.violation(sig, "dropping a pending read changed the packets later reads return or left a partial frame on the outgoing side", &op,
                     &format!("{} | out={}", b.items.join(";"), hex(&b.out)), &res);
             }
